@@ -37,6 +37,16 @@ def run(ctx):
         if r[0] != 'ok':
             ctx.failure('the grammatical requirement %r is rejected: %s' % (text, unS(r[6]) if r[0] == 'err' else dump(r)[:80]),
                         {'entry': 'Requirement::<VerbatimUrl>::from_str', 'input': text}, cls='arbitrary-equality-marker')
+    # "the marker denoted by the marker text": each PEP 508 variable name reads its own environment field
+    from . import c02
+
+    def parse_eval(text, env):
+        r = sess.ask(['req', 'verbatim', 'none', S('pkg[x] >=1.0 ; ' + text)])
+        if r[0] != 'ok':
+            return None
+        g = c02.eval_all(sess, int(r[4]), env, [])
+        return g[1] if g[0] == 'ok' else None
+    markers.key_table_battery(ctx, parse_eval)
     for n in range(n_der):
         d = reqgen.gen_derivation(ctx.rng)
         canon_marker = reqgen.canonical_marker(ctx.rng, d)
